@@ -10,7 +10,7 @@ use std::cmp::Ordering;
 use std::path::PathBuf;
 use verif_harness::util::*;
 
-/// a version of the specification's poset: bot < l, r < top; iso incomparable to all
+/// a version of the specification's poset: bot < l, r < top; iso incomparable to all others; nan to all and itself
 #[derive(Clone, Debug, PartialEq, Eq, Serialize, Deserialize)]
 struct PV { name: String, reqok: bool }
 fn less(a: &str, b: &str) -> bool {
@@ -18,7 +18,7 @@ fn less(a: &str, b: &str) -> bool {
 }
 impl PartialOrd for PV {
     fn partial_cmp(&self, o: &Self) -> Option<Ordering> {
-        if self.name == o.name { Some(Ordering::Equal) } else if less(&self.name, &o.name) { Some(Ordering::Less) } else if less(&o.name, &self.name) { Some(Ordering::Greater) } else { None }
+        if self.name == "nan" || o.name == "nan" { None } else if self.name == o.name { Some(Ordering::Equal) } else if less(&self.name, &o.name) { Some(Ordering::Less) } else if less(&o.name, &self.name) { Some(Ordering::Greater) } else { None }
     }
 }
 /// the chain bot < l < top as a total order
